@@ -188,6 +188,30 @@ def _rollup_cases(limit=None):
                 yield blocks, {e: list(a) for e, a in zip(es, assign)}
 
 
+class HarnessInapplicable(Exception):
+    pass
+
+
+class _StubMetrics:
+    def __init__(self, names):
+        import teaal.ir.component as comp
+        kinds = [comp.DRAMComponent, comp.MergerComponent, comp.CacheComponent, comp.BuffetComponent]
+        self.comps = {}
+        for i, n in enumerate(names):
+            c = object.__new__(kinds[i % len(kinds)])
+            c.name, c.num_instances, c.attrs, c.bindings = n, 1, {}, {}
+            self.comps[n] = c
+
+    def get_hardware(self):
+        return self
+
+    def get_component(self, name):
+        return self.comps[name]
+
+    def get_components(self, einsum, class_):
+        return [c for c in self.comps.values() if isinstance(c, class_)]
+
+
 def _check_rollup(tier, seed):
     from teaal.trans.collector import Collector
     from teaal.ir.fusion import Fusion
@@ -201,7 +225,13 @@ def _check_rollup(tier, seed):
         fus.blocks, fus.component_dict = blocks, cd
         col = object.__new__(Collector)
         col.fusion = fus
-        stmt = col._Collector__build_time()
+        # a roll-up that consults the hardware about a component is answered with components that may legally be shared by
+        # the Einsums of one block (memories and mergers; Fusion.add_einsum keeps functional units apart)
+        col.metrics = _StubMetrics(sorted({c for cs in cd.values() for c in cs}))
+        try:
+            stmt = col._Collector__build_time()
+        except AttributeError as ex:
+            raise HarnessInapplicable("Collector.__build_time reads state the roll-up harness does not provide: %r" % (ex,))
         tassign = [s for s in stmt.stmts if isinstance(s, h.SAssign) and s.assn.gen() == 'metrics["time"]']
         T, p = {}, 0
         for e, cs in cd.items():
@@ -380,7 +410,13 @@ def _check_divisors():
                         m = re.search(r'^metrics\["%s"\]\["%s"\]\["time"\] = .* / (\d+)$' % (e_, comp), text, flags=re.M)
                         got = int(m.group(1)) if m else None
                         if got != want[e_]:
-                            same = "; cause=one-component-name-in-two-configurations" if same_name and cnt["cfgA"] * fa != cnt["cfgB"] * fb else ""
+                            # the recorded finding is specific: an Einsum on the configuration declared FIRST divides by its own
+                            # clock times the INSTANCE COUNT of the same-named component of the configuration built LAST; any
+                            # other wrong divisor (e.g. an Einsum on the last configuration that gets the first one's count) is
+                            # not that finding
+                            on_cfg = "cfgA" if e_ == "T" else cz
+                            same = ("; cause=one-component-name-in-two-configurations"
+                                    if same_name and on_cfg == "cfgA" and got == clk["cfgA"] * cnt["cfgB"] != want[e_] else "")
                             fails.append({"name": "bounded/divisor-of-the-einsums-own-configuration",
                                           "detail": "Einsum %s runs on %s (%s at %d Hz: divisor %d) but its %s time divides by %r%s"
                                                     % (e_, "cfgA" if e_ == "T" else cz, la if e_ == "T" or cz == "cfgA" else lb,
